@@ -95,3 +95,49 @@ Definition compile_bash (o : oracles) (builtins : shell -> list (string * string
   | Panic site => Panic site
   | OutOfFuel => OutOfFuel
   end.
+
+(** ** the other three shells, as far as the emitter models go
+
+    [EmitData] models the DATA SECTIONS of the fish, zsh and pwsh scripts (command functions,
+    within-word wrapper / shape functions, the two data sections of the completion function); the
+    fixed skeleton between them is not modelled.  [compile_data sh] = [Driver.compile ... sh] ;
+    [Tables.all_tables sh] ; [EmitData.{Z,P,F}.data], behind the same validation of the oracles
+    (which are those of the run for THAT shell: the validated tree, hence the automata, their pop
+    orders, literal lists and shape groups depend on the shell through [<X@shell>] definitions). *)
+From CG Require Import Model.EmitData.
+
+Definition data_blocks (sh : shell) (command : string) (nd : needs) (a : alltables) (groups : list (list N))
+  : Tables.res blocks :=
+  match sh with
+  | Zsh => Z.data command nd a groups
+  | Pwsh => P.data command nd a groups
+  | Fish => F.data command nd a groups
+  | Bash => Ok []
+  end.
+
+Definition emit_data (sh : shell) (o : oracles) (v : valid_grammar) (c : cdfa) : cres blocks :=
+  if orders_ok c (o_main_lits o) (o_sub_lits o) then
+    match all_tables sh c (o_main_lits o) (o_sub_lits o) with
+    | Ok (nd, a) =>
+        if valid_grouping a (o_groups o) then
+          match data_blocks sh (v_command v) nd a (o_groups o) with
+          | Ok bs => Ok bs
+          | Err _ => Panic "emit: impossible error"
+          | Panic site => Panic site
+          | OutOfFuel => OutOfFuel
+          end
+        else Err CBadOracle
+    | Err _ => Panic "tables: impossible error"
+    | Panic site => Panic site
+    | OutOfFuel => OutOfFuel
+    end
+  else Err CBadOracle.
+
+Definition compile_data (sh : shell) (o : oracles) (builtins : shell -> list (string * string)) (text : string)
+  : cres blocks :=
+  match compile (pick_table (o_pops o)) (o_fuel o) builtins text sh with
+  | Ok (v, c) => emit_data sh o v c
+  | Err e => Err (CDriver e)
+  | Panic site => Panic site
+  | OutOfFuel => OutOfFuel
+  end.
